@@ -1,5 +1,588 @@
 import QModel.Core
-/-! C02 — model (not built yet) -/
+/-!
+# C02 — all representations of one object denote the same operator
+(model of the conversion functions of quara/objects/{state,povm,gate,mprocess,composite_system,
+matrix_basis}.py and quara/utils/matrix_util.py `truncate_hs`, `vdot`, `kron`, `flatten`)
+
+Everything that is (bi)linear algebra is polymorphic in a scalar type `K` with `+ * 0 1` and a
+conjugation (`HasConj`): it is executed at `CRat` (Gaussian rationals: every complex128 is one)
+and reasoned about at any commutative star-ring / field with conjugation (QProofs/C02, QProps/C02).
+The matrix basis `B` (a vector of `n` matrices of size `d × d`) is an *input* of every function.
+
+The model mirrors the code as it is:
+* the plain implementations are the same loops (left folds in the same order, `reduce(add, …)`
+  without an initial value), the `_with_dict` implementations build the same tables of non-zero
+  coefficients, the `_with_sparsity` implementations are the same flattened matrix–vector products;
+* `truncate_hs` has its imaginary-part error branch and zeroes entries below the threshold;
+* `Povm.matrix_with_sparsity` raises `NameError` on every call (DESIGN §5-D2);
+* `to_var_from_choi` calls the *forward* conversion `to_choi_from_hs_with_sparsity` (DESIGN §5-D3).
+-/
 namespace QM.C02
-def handle (_args : List String) : Option String := none
+
+/-- conjugation of the scalar type (complex conjugate at `CRat`, `star` at a Mathlib star-ring) -/
+class HasConj (K : Type) where
+  conj : K → K
+export HasConj (conj)
+
+/-! ## Gaussian rationals -/
+
+structure CRat where
+  re : Rat
+  im : Rat
+deriving DecidableEq, Repr
+
+namespace CRat
+instance : Add CRat := ⟨fun a b => ⟨a.re + b.re, a.im + b.im⟩⟩
+instance : Sub CRat := ⟨fun a b => ⟨a.re - b.re, a.im - b.im⟩⟩
+instance : Neg CRat := ⟨fun a => ⟨-a.re, -a.im⟩⟩
+instance : Mul CRat := ⟨fun a b => ⟨a.re * b.re - a.im * b.im, a.re * b.im + a.im * b.re⟩⟩
+instance : Zero CRat := ⟨⟨0, 0⟩⟩
+instance : One CRat := ⟨⟨1, 0⟩⟩
+instance : HasConj CRat := ⟨fun a => ⟨a.re, -a.im⟩⟩
+def ofRat (q : Rat) : CRat := ⟨q, 0⟩
+end CRat
+
+instance : HasConj Rat := ⟨fun a => a⟩
+
+/-! ## index arithmetic of `flatten` / `reshape` / `kron` (row major) -/
+
+/-- `(i, j) ↦ i * b + j` -/
+def pidx {a b : Nat} (i : Fin a) (j : Fin b) : Fin (a * b) :=
+  ⟨i.val * b + j.val, by
+    have hi := i.isLt
+    have hj := j.isLt
+    calc i.val * b + j.val < i.val * b + b := Nat.add_lt_add_left hj _
+      _ = (i.val + 1) * b := by rw [Nat.add_mul, Nat.one_mul]
+      _ ≤ a * b := Nat.mul_le_mul_right b hi⟩
+
+/-- `x ↦ x / b` -/
+def pdiv {a b : Nat} (x : Fin (a * b)) : Fin a :=
+  ⟨x.val / b, by
+    have h : x.val < b * a := Nat.mul_comm a b ▸ x.isLt
+    exact Nat.div_lt_of_lt_mul h⟩
+
+/-- `x ↦ x % b` -/
+def pmod {a b : Nat} (x : Fin (a * b)) : Fin b :=
+  ⟨x.val % b, by
+    have h : x.val < a * b := x.isLt
+    rcases Nat.eq_zero_or_pos b with hb | hb
+    · subst hb; simp at h
+    · exact Nat.mod_lt _ hb⟩
+
+/-- `itertools.product(range(n), range(n))` -/
+def pairs (n : Nat) : List (Fin n × Fin n) :=
+  (List.finRange n).flatMap fun a => (List.finRange n).map fun b => (a, b)
+
+section generic
+variable {K : Type}
+
+/-- a matrix basis: `n` matrices of size `d × d` -/
+abbrev Basis (K : Type) (d n : Nat) := Vec (Mat K d d) n
+
+def conjM [HasConj K] {m n : Nat} (A : Mat K m n) : Mat K m n :=
+  Mat.ofFn fun i j => conj (A.get i j)
+
+/-- `A.conj().T` -/
+def ctransp [HasConj K] {m n : Nat} (A : Mat K m n) : Mat K n m :=
+  Mat.ofFn fun i j => conj (A.get j i)
+
+/-- `np.kron` -/
+def kron [Mul K] {a b c e : Nat} (A : Mat K a b) (C : Mat K c e) : Mat K (a * c) (b * e) :=
+  Mat.ofFn fun x y => A.get (pdiv x) (pdiv y) * C.get (pmod x) (pmod y)
+
+/-- `matrix.flatten()` -/
+def flat {a b : Nat} (A : Mat K a b) : Vec K (a * b) :=
+  Vec.ofFn fun x => A.get (pdiv x) (pmod x)
+
+/-- `vector.reshape((a, b))` -/
+def unflat {a b : Nat} (v : Vec K (a * b)) : Mat K a b :=
+  Mat.ofFn fun i j => v.get (pidx i j)
+
+/-- `np.vdot(A, C)` = Σ over the flattened index of `conj(A) * C` -/
+def vdot [Add K] [Mul K] [Zero K] [HasConj K] {a b : Nat} (A C : Mat K a b) : K :=
+  fsum (a * b) fun x => conj (A.get (pdiv x) (pmod x)) * C.get (pdiv x) (pmod x)
+
+/-! ## state.py -/
+
+/-- `State.to_density_matrix`: `density += coefficient * basis` over `zip(vec, basis)` -/
+def densityLoop [Add K] [Mul K] [Zero K] {d n : Nat} (B : Basis K d n) (v : Vec K n) : Mat K d d :=
+  (List.finRange n).foldl (fun acc a => acc.add ((B.get a).smul (v.get a))) Mat.zero
+
+/-- `CompositeSystem.basis_T_sparse`: column `a` is the flattened `B_a` -/
+def basisT {d n : Nat} (B : Basis K d n) : Mat K (d * d) n :=
+  Mat.ofFn fun x a => (B.get a).get (pdiv x) (pmod x)
+
+/-- `CompositeSystem.basisconjugate_sparse`: row `a` is the flattened `conj(B_a)` -/
+def basisConj [HasConj K] {d n : Nat} (B : Basis K d n) : Mat K n (d * d) :=
+  Mat.ofFn fun a x => conj ((B.get a).get (pdiv x) (pmod x))
+
+/-- `to_density_matrix_from_vec` (= `to_density_matrix_with_sparsity`, `to_matrices_from_vecs`) -/
+def densitySparse [Add K] [Mul K] [Zero K] {d n : Nat} (B : Basis K d n) (v : Vec K n) : Mat K d d :=
+  unflat ((basisT B).mulVec v)
+
+/-- `to_vec_from_density_matrix_with_sparsity` / `to_vec_from_matrix_with_sparsity`
+before `truncate_hs` -/
+def vecOfDensityRaw [Add K] [Mul K] [Zero K] [HasConj K] {d n : Nat} (B : Basis K d n)
+    (rho : Mat K d d) : Vec K n :=
+  (basisConj B).mulVec (flat rho)
+
+/-! ## matrix_basis.py -/
+
+/-- `convert_vec`: `rep[β, α] = vdot(to_β, from_α)`, result `rep @ from_vec` -/
+def convertVec [Add K] [Mul K] [Zero K] [HasConj K] {d n : Nat} (fromB toB : Basis K d n)
+    (v : Vec K n) : Vec K n :=
+  (Mat.ofFn fun b a => vdot (toB.get b) (fromB.get a) : Mat K n n).mulVec v
+
+def eMat [Zero K] [One K] {d : Nat} (r c : Fin d) : Mat K d d :=
+  Mat.ofFn fun i j => if i = r ∧ j = c then 1 else 0
+
+/-- `get_comp_basis(dim, mode)`; `rowMajor = false` is `"column_major"` -/
+def compBasis [Zero K] [One K] (d : Nat) (rowMajor : Bool) : Basis K d (d * d) :=
+  Vec.ofFn fun x => if rowMajor then eMat (pdiv x) (pmod x) else eMat (pmod x) (pdiv x)
+
+/-! ## gate.py (the basis has `d * d` elements) -/
+
+/-- `CompositeSystem.basis_basisconjugate((α, β))` = `B_α ⊗ conj(B_β)` -/
+def bbc [Mul K] [HasConj K] {d : Nat} (B : Basis K d (d * d)) (al be : Fin (d * d)) :
+    Mat K (d * d) (d * d) :=
+  kron (B.get al) (conjM (B.get be))
+
+/-- one entry of `B_α ⊗ conj(B_β)` (= `(bbc B α β).get i j`, without building the matrix) -/
+def bbcEntry [Mul K] [HasConj K] {d : Nat} (B : Basis K d (d * d)) (al be i j : Fin (d * d)) : K :=
+  (B.get al).get (pdiv i) (pdiv j) * conj ((B.get be).get (pmod i) (pmod j))
+
+/-- `functools.reduce(operator.add, l)` without initial value; `none` = TypeError on an empty list -/
+def reduceAdd [Add K] {m n : Nat} : List (Mat K m n) → Option (Mat K m n)
+  | [] => none
+  | t :: ts => some (ts.foldl Mat.add t)
+
+/-- `to_choi_from_hs`: `reduce(add, [hs[α][β] * bb …])` -/
+def choiLoop [Add K] [Mul K] [HasConj K] {d : Nat} (B : Basis K d (d * d))
+    (hs : Mat K (d * d) (d * d)) : Option (Mat K (d * d) (d * d)) :=
+  reduceAdd ((pairs (d * d)).map fun p => (bbc B p.1 p.2).smul (hs.get p.1 p.2))
+
+/-- `CompositeSystem.dict_from_hs_to_choi[(i, j)]`: the `(α, β, coefficient)` with non-zero coefficient,
+in `itertools.product` order -/
+def dictHsToChoi [Mul K] [Zero K] [HasConj K] [DecidableEq K] {d : Nat} (B : Basis K d (d * d))
+    (i j : Fin (d * d)) : List (Fin (d * d) × Fin (d * d) × K) :=
+  (pairs (d * d)).filterMap fun p =>
+    let c := bbcEntry B p.1 p.2 i j
+    if c = 0 then none else some (p.1, p.2, c)
+
+/-- `to_choi_from_hs_with_dict` -/
+def choiDict [Add K] [Mul K] [Zero K] [HasConj K] [DecidableEq K] {d : Nat} (B : Basis K d (d * d))
+    (hs : Mat K (d * d) (d * d)) : Mat K (d * d) (d * d) :=
+  Mat.ofFn fun i j =>
+    (dictHsToChoi B i j).foldl (fun acc t => acc + hs.get t.1 t.2.1 * t.2.2) 0
+
+/-- `CompositeSystem.basis_basisconjugate_T_sparse`: column `(α, β)` is the flattened `B_α ⊗ conj B_β` -/
+def bbcT [Mul K] [HasConj K] {d : Nat} (B : Basis K d (d * d)) :
+    Mat K ((d * d) * (d * d)) ((d * d) * (d * d)) :=
+  Mat.ofFn fun x y => bbcEntry B (pdiv y) (pmod y) (pdiv x) (pmod x)
+
+/-- `to_choi_from_hs_with_sparsity` -/
+def choiSparse [Add K] [Mul K] [Zero K] [HasConj K] {d : Nat} (B : Basis K d (d * d))
+    (hs : Mat K (d * d) (d * d)) : Mat K (d * d) (d * d) :=
+  unflat ((bbcT B).mulVec (flat hs))
+
+/-- `to_hs_from_choi` before `.real`: `tr((B_α ⊗ conj B_β)^† choi)` -/
+def hsOfChoiLoopRaw [Add K] [Mul K] [Zero K] [HasConj K] {d : Nat} (B : Basis K d (d * d))
+    (choi : Mat K (d * d) (d * d)) : Mat K (d * d) (d * d) :=
+  Mat.ofFn fun al be => ((ctransp (bbc B al be)).mul choi).trace
+
+/-- `CompositeSystem.dict_from_choi_to_hs[(α, β)]` -/
+def dictChoiToHs [Mul K] [Zero K] [HasConj K] [DecidableEq K] {d : Nat} (B : Basis K d (d * d))
+    (al be : Fin (d * d)) : List (Fin (d * d) × Fin (d * d) × K) :=
+  (pairs (d * d)).filterMap fun p =>
+    let c := bbcEntry B al be p.1 p.2
+    if c = 0 then none else some (p.1, p.2, c)
+
+/-- `to_hs_from_choi_with_dict` before `truncate_hs`: `hs[α, β] += coefficient * choi[j, i]` -/
+def hsOfChoiDictRaw [Add K] [Mul K] [Zero K] [HasConj K] [DecidableEq K] {d : Nat}
+    (B : Basis K d (d * d)) (choi : Mat K (d * d) (d * d)) : Mat K (d * d) (d * d) :=
+  Mat.ofFn fun al be =>
+    (dictChoiToHs B al be).foldl (fun acc t => acc + t.2.2 * choi.get t.2.1 t.1) 0
+
+/-- `CompositeSystem.basisconjugate_basis_sparse` = `conj` of the stacked flattened `B_α ⊗ conj B_β` -/
+def bbcConj [Mul K] [HasConj K] {d : Nat} (B : Basis K d (d * d)) :
+    Mat K ((d * d) * (d * d)) ((d * d) * (d * d)) :=
+  Mat.ofFn fun y x => conj (bbcEntry B (pdiv y) (pmod y) (pdiv x) (pmod x))
+
+/-- `to_hs_from_choi_with_sparsity` before `truncate_hs` -/
+def hsOfChoiSparseRaw [Add K] [Mul K] [Zero K] [HasConj K] {d : Nat} (B : Basis K d (d * d))
+    (choi : Mat K (d * d) (d * d)) : Mat K (d * d) (d * d) :=
+  unflat ((bbcConj B).mulVec (flat choi))
+
+/-- the matrix `U[α, β] = vdot(to_α, from_β)` of `convert_hs` -/
+def transU [Add K] [Mul K] [Zero K] [HasConj K] {d n : Nat} (fromB toB : Basis K d n) : Mat K n n :=
+  Mat.ofFn fun a b => vdot (toB.get a) (fromB.get b)
+
+/-- `convert_hs` main logic: `U @ from_hs @ U.conj().T` (the shape checks are in `handle`) -/
+def convertHs [Add K] [Mul K] [Zero K] [HasConj K] {d n : Nat} (fromB toB : Basis K d n)
+    (hs : Mat K n n) : Mat K n n :=
+  ((transU fromB toB).mul hs).mul (ctransp (transU fromB toB))
+
+/-- `sum([np.kron(mat, mat.conjugate()) for mat in kraus])` (python `sum` starts from `0`) -/
+def krausTensorSum [Add K] [Mul K] [Zero K] [HasConj K] {d : Nat} (ks : List (Mat K d d)) :
+    Mat K (d * d) (d * d) :=
+  ks.foldl (fun acc k => acc.add (kron k (conjM k))) Mat.zero
+
+/-- `to_hs_from_kraus_matrices` before `truncate_hs` -/
+def hsOfKrausRaw [Add K] [Mul K] [Zero K] [One K] [HasConj K] {d : Nat} (B : Basis K d (d * d))
+    (ks : List (Mat K d d)) : Mat K (d * d) (d * d) :=
+  convertHs (compBasis d true) B (krausTensorSum ks)
+
+/-- `to_process_matrix_from_hs`: `χ[α, β] = tr((E_α^† ⊗ E_β^T) hs_comp)` -/
+def processMatrix [Add K] [Mul K] [Zero K] [One K] [HasConj K] {d : Nat} (B : Basis K d (d * d))
+    (hs : Mat K (d * d) (d * d)) : Mat K (d * d) (d * d) :=
+  let comp : Basis K d (d * d) := compBasis d true
+  let hsComp := convertHs B comp hs
+  Mat.ofFn fun al be =>
+    ((kron (ctransp (comp.get al)) ((comp.get be).transpose)).mul hsComp).trace
+
+/-- `convert_var_to_hs(…, on_para_eq_constraint=True)`: insert the row `(1, 0, …, 0)` on top -/
+def varToHsEq [Zero K] [One K] {n : Nat} (var : Vec K ((n - 1) * n)) : Mat K n n :=
+  Mat.ofFn fun i j =>
+    if h : i.val = 0 then (if j.val = 0 then 1 else 0)
+    else var.get (pidx ⟨i.val - 1, by have := i.isLt; omega⟩ j)
+
+/-- `convert_hs_to_var(…, on_para_eq_constraint=True)`: delete row 0, flatten -/
+def hsToVarEq {n : Nat} (hs : Mat K n n) : Vec K ((n - 1) * n) :=
+  Vec.ofFn fun x => hs.get ⟨(pdiv x).val + 1, by have := (pdiv x).isLt; omega⟩ (pmod x)
+
+/-- `to_choi_from_var(…, on_para_eq_constraint=True)` -/
+def toChoiFromVarEq [Add K] [Mul K] [Zero K] [One K] [HasConj K] {d : Nat} (B : Basis K d (d * d))
+    (var : Vec K ((d * d - 1) * (d * d))) : Mat K (d * d) (d * d) :=
+  choiSparse B (varToHsEq var)
+
+/-- `to_choi_from_var(…, on_para_eq_constraint=False)` -/
+def toChoiFromVarFree [Add K] [Mul K] [Zero K] [HasConj K] {d : Nat} (B : Basis K d (d * d))
+    (var : Vec K ((d * d) * (d * d))) : Mat K (d * d) (d * d) :=
+  choiSparse B (unflat var)
+
+/-- `to_var_from_choi(…, on_para_eq_constraint=True)` AS IT IS: the body calls
+`to_choi_from_hs_with_sparsity` (the forward conversion) on the Choi matrix. -/
+def toVarFromChoiEq [Add K] [Mul K] [Zero K] [HasConj K] {d : Nat} (B : Basis K d (d * d))
+    (choi : Mat K (d * d) (d * d)) : Vec K ((d * d - 1) * (d * d)) :=
+  hsToVarEq (choiSparse B choi)
+
+/-- `to_var_from_choi(…, on_para_eq_constraint=False)` AS IT IS (see `toVarFromChoiEq`). -/
+def toVarFromChoiFree [Add K] [Mul K] [Zero K] [HasConj K] {d : Nat} (B : Basis K d (d * d))
+    (choi : Mat K (d * d) (d * d)) : Vec K ((d * d) * (d * d)) :=
+  flat (choiSparse B choi)
+
+/-- what `to_var_from_choi` is documented to do (inverse conversion); used by the theorems and by
+the oracle's reference, never by the driver's `toVarFromChoi` op. -/
+def toVarFromChoiFreeIntended [Add K] [Mul K] [Zero K] [HasConj K] {d : Nat} (B : Basis K d (d * d))
+    (choi : Mat K (d * d) (d * d)) : Vec K ((d * d) * (d * d)) :=
+  flat (hsOfChoiSparseRaw B choi)
+
+end generic
+
+/-! ## truncate_hs (matrix_util.py) — on Gaussian rationals -/
+
+inductive Err
+  | imagNonZero   -- truncate_hs: "some imaginary parts of entries of matrix != 0"
+  | nameError     -- Povm.matrix_with_sparsity: NameError: name 'c_sys' is not defined
+  | indexError    -- list index out of range
+  | emptyKraus    -- sum([]) = 0 has no .shape
+  | emptyReduce   -- reduce() of empty sequence
+  | notSquare | dimNotSquare | dimMismatch | lenMismatch   -- convert_hs / convert_vec ValueErrors
+  | reshape       -- var.reshape(size) ValueError
+deriving Repr, DecidableEq
+
+def Err.toString : Err → String
+  | .imagNonZero => "imagNonZero" | .nameError => "nameError" | .indexError => "indexError"
+  | .emptyKraus => "emptyKraus" | .emptyReduce => "emptyReduce" | .notSquare => "notSquare"
+  | .dimNotSquare => "dimNotSquare" | .dimMismatch => "dimMismatch" | .lenMismatch => "lenMismatch"
+  | .reshape => "reshape"
+
+def rabs (q : Rat) : Rat := if q < 0 then -q else q
+
+/-- one entry of `truncate_hs(hs, eps)` with `is_zero_imaginary_part_required=True`:
+`truncate_imaginary_part` keeps the entry complex unless `|imag| < eps`; any remaining non-zero
+imaginary part raises; then `.real`, then `truncate_computational_fluctuation` (|x| < eps ↦ 0). -/
+def truncEntry (eps : Rat) (z : CRat) : Except Err Rat :=
+  if !(rabs z.im < eps) && z.im != 0 then .error .imagNonZero
+  else .ok (if rabs z.re < eps then 0 else z.re)
+
+def truncList (eps : Rat) (l : List CRat) : Except Err (List Rat) := l.mapM (truncEntry eps)
+
+/-- `to_hs_from_choi`: `.real` of the trace, no check -/
+def realList (l : List CRat) : List Rat := l.map (·.re)
+
+/-! ## povm.py -/
+
+/-- `Povm.matrix(index)` for an int index (loop form) -/
+def povmMatrix {d n : Nat} (B : Basis CRat d n) (vecs : List (Vec CRat n)) (index : Nat) :
+    Except Err (Mat CRat d d) :=
+  match vecs[index]? with
+  | none => .error .indexError
+  | some v => .ok (densityLoop B v)
+
+/-- `Povm.matrix_with_sparsity(index)` AS IT IS: `vec = self.vec(index)` succeeds or raises IndexError,
+then `c_sys.basis_T_sparse` raises `NameError` (there is no name `c_sys` in scope). -/
+def povmMatrixSparse {d n : Nat} (_B : Basis CRat d n) (vecs : List (Vec CRat n)) (index : Nat) :
+    Except Err (Mat CRat d d) :=
+  match vecs[index]? with
+  | none => .error .indexError
+  | some _ => .error .nameError
+
+/-! ## Kraus (gate.py `to_kraus_matrices_from_hs`) — numpy's `eigh` and `sqrt` are parameters -/
+
+/-- one eigenpair as returned by `np.linalg.eigh(choi)` together with `np.sqrt(eigenvalue)` -/
+structure EigPair (d : Nat) where
+  val : Rat
+  sqrtVal : Rat
+  vec : Vec CRat (d * d)
+
+/-- `np.isclose(x, 0, atol=atol)` (rtol·|0| = 0) -/
+def closeZero (x atol : Rat) : Bool := rabs x ≤ atol
+
+/-- `mutil.is_hermitian(M, atol)`: `allclose(M, M^†, atol, rtol=0)` entrywise on complex numbers uses
+`|z| ≤ atol`; the model tests the squared modulus. -/
+def isHermitian {n : Nat} (M : Mat CRat n n) (atol : Rat) : Bool :=
+  (List.finRange n).all fun i => (List.finRange n).all fun j =>
+    let z := M.get i j - conj (M.get j i)
+    z.re * z.re + z.im * z.im ≤ atol * atol
+
+/-- `is_cp`: Choi matrix Hermitian and every eigenvalue not close to zero is ≥ 0 -/
+def isCp {d : Nat} (choi : Mat CRat (d * d) (d * d)) (eigs : List (EigPair d)) (atol : Rat) : Bool :=
+  isHermitian choi atol && eigs.all fun e => closeZero e.val atol || decide (0 ≤ e.val)
+
+/-- insertion into a list sorted by decreasing eigenvalue, after the equal ones (python's stable
+`sorted(…, reverse=True)`) -/
+def insertDesc {d : Nat} (e : EigPair d) : List (EigPair d) → List (EigPair d)
+  | [] => [e]
+  | x :: xs => if x.val < e.val then e :: x :: xs else x :: insertDesc e xs
+
+def sortDesc {d : Nat} (l : List (EigPair d)) : List (EigPair d) :=
+  l.foldl (fun acc e => insertDesc e acc) []
+
+/-- `to_kraus_matrices_from_hs` up to the phase convention (step 3 multiplies each operator by a
+unit-modulus number): `[]` when not CP, else `sqrt(λ) · unvec(v)` for the eigenpairs not close to
+zero (threshold `atolSettings`), largest eigenvalue first. -/
+def krausRaw {d : Nat} (B : Basis CRat d (d * d)) (hs : Mat CRat (d * d) (d * d))
+    (eigs : List (EigPair d)) (atol atolSettings : Rat) : List (Mat CRat d d) :=
+  if !isCp (choiSparse B hs) eigs atol then []
+  else
+    let kept := eigs.filter fun e => !closeZero e.val atolSettings
+    (sortDesc kept).map fun e => (unflat e.vec : Mat CRat d d).smul (CRat.ofRat e.sqrtVal)
+
+/-! ## driver -/
+
+def parseCList? (s : String) : Option (List CRat) := do
+  let l ← parseList? parseRat? s
+  let rec go : List Rat → Option (List CRat)
+    | [] => some []
+    | [_] => none
+    | a :: b :: r => (go r).map (⟨a, b⟩ :: ·)
+  go l
+
+def showCList (l : List CRat) : String :=
+  showList showRat (l.flatMap fun z => [z.re, z.im])
+
+def toVec? {α : Type} (n : Nat) (l : List α) : Option (Vec α n) :=
+  if h : l.length = n then some ⟨l.toArray, by simp [h]⟩ else none
+
+/-- split a list into `k` chunks of length `m` -/
+def chunks {α : Type} (m : Nat) : Nat → List α → List (List α)
+  | 0, _ => []
+  | k + 1, l => l.take m :: chunks m k (l.drop m)
+
+def toMat? {α : Type} (m n : Nat) (l : List α) : Option (Mat α m n) := do
+  if l.length ≠ m * n then none
+  let rows ← (chunks n m l).mapM (toVec? n)
+  toVec? m rows
+
+def toBasis? (d n : Nat) (l : List CRat) : Option (Basis CRat d n) := do
+  if l.length ≠ n * (d * d) then none
+  let ms ← (chunks (d * d) n l).mapM (toMat? d d)
+  toVec? n ms
+
+def matList {α : Type} {m n : Nat} (A : Mat α m n) : List α :=
+  A.toList.flatMap fun r => r.toList
+
+def showM {m n : Nat} (A : Mat CRat m n) : String := "ok " ++ showCList (matList A)
+def showV {n : Nat} (v : Vec CRat n) : String := "ok " ++ showCList v.toList
+def showR (r : Except Err (List Rat)) : String :=
+  match r with
+  | .error e => "err " ++ e.toString
+  | .ok l => "ok " ++ showList showRat l
+def showEM {m n : Nat} (r : Except Err (Mat CRat m n)) : String :=
+  match r with
+  | .error e => "err " ++ e.toString
+  | .ok A => showM A
+
+def parseEigs? (d : Nat) (vals sqrts vecs : String) : Option (List (EigPair d)) := do
+  let vals ← parseList? parseRat? vals
+  let sqrts ← parseList? parseRat? sqrts
+  let vecs ← parseCList? vecs
+  if vals.length ≠ sqrts.length ∨ vecs.length ≠ vals.length * (d * d) then none
+  let vs ← (chunks (d * d) vals.length vecs).mapM (toVec? (d * d))
+  some ((vals.zip (sqrts.zip vs)).map fun t => ⟨t.1, t.2.1, t.2.2⟩)
+
+/-- the parameter checks of `convert_hs` in the order of the code -/
+def convertHsChecks (rows cols fromDim fromLen toDim toLen : Nat) : Except Err Unit :=
+  if rows ≠ cols then .error .notSquare
+  else if (Nat.sqrt rows) ^ 2 ≠ rows then .error .dimNotSquare
+  else if fromDim ≠ toDim then .error .dimMismatch
+  else if fromLen ≠ toLen then .error .lenMismatch
+  else .ok ()
+
+/-- the parameter checks of `convert_vec` in the order of the code -/
+def convertVecChecks (fromDim fromLen toDim toLen : Nat) : Except Err Unit :=
+  if fromLen ≠ toLen then .error .lenMismatch
+  else if fromDim ≠ toDim then .error .dimMismatch
+  else .ok ()
+
+def handle (args : List String) : Option String :=
+  match args with
+  -- state / povm element: vec -> matrix
+  | ["densityLoop", d, n, basis, v] => do
+      let d ← parseNat? d; let n ← parseNat? n
+      let B ← toBasis? d n (← parseCList? basis)
+      let v ← toVec? n (← parseCList? v)
+      some (showM (densityLoop B v))
+  | ["densitySparse", d, n, basis, v] => do
+      let d ← parseNat? d; let n ← parseNat? n
+      let B ← toBasis? d n (← parseCList? basis)
+      let v ← toVec? n (← parseCList? v)
+      some (showM (densitySparse B v))
+  -- matrix -> vec (raw complex value, and through truncate_hs)
+  | ["vecOfDensityRaw", d, n, basis, rho] => do
+      let d ← parseNat? d; let n ← parseNat? n
+      let B ← toBasis? d n (← parseCList? basis)
+      let rho ← toMat? d d (← parseCList? rho)
+      some (showV (vecOfDensityRaw B rho))
+  | ["vecOfDensity", d, n, basis, rho, eps] => do
+      let d ← parseNat? d; let n ← parseNat? n
+      let B ← toBasis? d n (← parseCList? basis)
+      let rho ← toMat? d d (← parseCList? rho)
+      let eps ← parseRat? eps
+      some (showR (truncList eps (vecOfDensityRaw B rho).toList))
+  | ["povmMatrix", d, n, basis, m, vecs, idx] => do
+      let d ← parseNat? d; let n ← parseNat? n; let m ← parseNat? m; let idx ← parseNat? idx
+      let B ← toBasis? d n (← parseCList? basis)
+      let l ← parseCList? vecs
+      if l.length ≠ m * n then none
+      let vs ← (chunks n m l).mapM (toVec? n)
+      some (showEM (povmMatrix B vs idx))
+  | ["povmMatrixSparse", d, n, basis, m, vecs, idx] => do
+      let d ← parseNat? d; let n ← parseNat? n; let m ← parseNat? m; let idx ← parseNat? idx
+      let B ← toBasis? d n (← parseCList? basis)
+      let l ← parseCList? vecs
+      if l.length ≠ m * n then none
+      let vs ← (chunks n m l).mapM (toVec? n)
+      some (showEM (povmMatrixSparse B vs idx))
+  | ["convertVec", d, n, fromB, toDim, toLen, toB, v] => do
+      let d ← parseNat? d; let n ← parseNat? n
+      let toDim ← parseNat? toDim; let toLen ← parseNat? toLen
+      match convertVecChecks d n toDim toLen with
+      | .error e => some ("err " ++ e.toString)
+      | .ok () =>
+        let F ← toBasis? d n (← parseCList? fromB)
+        let T ← toBasis? d n (← parseCList? toB)
+        let v ← toVec? n (← parseCList? v)
+        some (showV (convertVec F T v))
+  | ["compBasis", d, mode] => do
+      let d ← parseNat? d
+      let rm ← (if mode = "row_major" then some true else if mode = "column_major" then some false else none)
+      some ("ok " ++ showCList ((compBasis d rm : Basis CRat d (d * d)).toList.flatMap matList))
+  -- gate
+  | ["choiLoop", d, basis, hs] => do
+      let d ← parseNat? d
+      let B ← toBasis? d (d * d) (← parseCList? basis)
+      let hs ← toMat? (d * d) (d * d) (← parseCList? hs)
+      match choiLoop B hs with
+      | none => some "err emptyReduce"
+      | some c => some (showM c)
+  | ["choiDict", d, basis, hs] => do
+      let d ← parseNat? d
+      let B ← toBasis? d (d * d) (← parseCList? basis)
+      let hs ← toMat? (d * d) (d * d) (← parseCList? hs)
+      some (showM (choiDict B hs))
+  | ["choiSparse", d, basis, hs] => do
+      let d ← parseNat? d
+      let B ← toBasis? d (d * d) (← parseCList? basis)
+      let hs ← toMat? (d * d) (d * d) (← parseCList? hs)
+      some (showM (choiSparse B hs))
+  | ["hsOfChoiLoop", d, basis, choi] => do
+      let d ← parseNat? d
+      let B ← toBasis? d (d * d) (← parseCList? basis)
+      let c ← toMat? (d * d) (d * d) (← parseCList? choi)
+      some ("ok " ++ showList showRat (realList (matList (hsOfChoiLoopRaw B c))))
+  | ["hsOfChoiDict", d, basis, choi, eps] => do
+      let d ← parseNat? d
+      let B ← toBasis? d (d * d) (← parseCList? basis)
+      let c ← toMat? (d * d) (d * d) (← parseCList? choi)
+      let eps ← parseRat? eps
+      some (showR (truncList eps (matList (hsOfChoiDictRaw B c))))
+  | ["hsOfChoiSparse", d, basis, choi, eps] => do
+      let d ← parseNat? d
+      let B ← toBasis? d (d * d) (← parseCList? basis)
+      let c ← toMat? (d * d) (d * d) (← parseCList? choi)
+      let eps ← parseRat? eps
+      some (showR (truncList eps (matList (hsOfChoiSparseRaw B c))))
+  | ["convertHs", rows, cols, hs, d, n, fromB, toDim, toLen, toB] => do
+      let rows ← parseNat? rows; let cols ← parseNat? cols
+      let d ← parseNat? d; let n ← parseNat? n
+      let toDim ← parseNat? toDim; let toLen ← parseNat? toLen
+      match convertHsChecks rows cols d n toDim toLen with
+      | .error e => some ("err " ++ e.toString)
+      | .ok () =>
+        let F ← toBasis? d n (← parseCList? fromB)
+        let T ← toBasis? d n (← parseCList? toB)
+        let hs ← toMat? n n (← parseCList? hs)
+        some (showM (convertHs F T hs))
+  | ["convertToComp", d, basis, hs, mode] => do
+      let d ← parseNat? d
+      let B ← toBasis? d (d * d) (← parseCList? basis)
+      let hs ← toMat? (d * d) (d * d) (← parseCList? hs)
+      let rm ← (if mode = "row_major" then some true else if mode = "column_major" then some false else none)
+      some (showM (convertHs B (compBasis d rm) hs))
+  | ["hsOfKraus", d, basis, k, kraus, eps] => do
+      let d ← parseNat? d; let k ← parseNat? k
+      let B ← toBasis? d (d * d) (← parseCList? basis)
+      let l ← parseCList? kraus
+      if l.length ≠ k * (d * d) then none
+      let ks ← (chunks (d * d) k l).mapM (toMat? d d)
+      let eps ← parseRat? eps
+      if ks.isEmpty then some "err emptyKraus"
+      else some (showR (truncList eps (matList (hsOfKrausRaw B ks))))
+  | ["processMatrix", d, basis, hs] => do
+      let d ← parseNat? d
+      let B ← toBasis? d (d * d) (← parseCList? basis)
+      let hs ← toMat? (d * d) (d * d) (← parseCList? hs)
+      some (showM (processMatrix B hs))
+  | ["toChoiFromVar", d, basis, var, onEq] => do
+      let d ← parseNat? d
+      let B ← toBasis? d (d * d) (← parseCList? basis)
+      let l ← parseCList? var
+      if onEq = "1" then
+        match toVec? ((d * d - 1) * (d * d)) l with
+        | none => some "err reshape"
+        | some v => some (showM (toChoiFromVarEq B v))
+      else if onEq = "0" then
+        match toVec? ((d * d) * (d * d)) l with
+        | none => some "err reshape"
+        | some v => some (showM (toChoiFromVarFree B v))
+      else none
+  | ["toVarFromChoi", d, basis, choi, onEq] => do
+      let d ← parseNat? d
+      let B ← toBasis? d (d * d) (← parseCList? basis)
+      let c ← toMat? (d * d) (d * d) (← parseCList? choi)
+      if onEq = "1" then some (showV (toVarFromChoiEq B c))
+      else if onEq = "0" then some (showV (toVarFromChoiFree B c))
+      else none
+  | ["kraus", d, basis, hs, vals, sqrts, vecs, atol, atolSettings] => do
+      let d ← parseNat? d
+      let B ← toBasis? d (d * d) (← parseCList? basis)
+      let hs ← toMat? (d * d) (d * d) (← parseCList? hs)
+      let eigs ← parseEigs? d vals sqrts vecs
+      let atol ← parseRat? atol; let atolS ← parseRat? atolSettings
+      let ks := krausRaw B hs eigs atol atolS
+      some (s!"ok {ks.length} " ++ showCList (matList (krausTensorSum ks)))
+  | _ => none
+
 end QM.C02
